@@ -1,7 +1,7 @@
 """C07 - element, hydrogen and charge accounting of a SMILES is exact."""
 from checks.props import c07_native
 
-MODULES = ["contracts.comparator", "contracts.decomposer"]
+MODULES = ["contracts.rows", "contracts.externals", "contracts.comparator", "contracts.decomposer"]
 
 
 def replay(d):
